@@ -190,7 +190,19 @@ func (r *funcRun) execBlock(st *State, b *ssa.BasicBlock, pred *ssa.BasicBlock) 
 		}
 		// havoc (allocation counter first: the new versions may hold references allocated in the loop)
 		st.bumpAlloc()
+		localOnly := r.loopLocalOnly(b)
 		for _, c := range r.loopWrites(b) {
+			if localOnly[c] {
+				// every write to this component in the loop goes through a local of this function
+				// (allocated after entry): what existed at entry keeps its value
+				if sig, ok := st.compSig[c]; ok && strings.HasPrefix(sig, "(Array Int ") {
+					before := st.comp(c, sig)
+					st.havocComp(c)
+					after := st.comp(c, sig)
+					st.assume(r.frameFormula(sig, after, before, r.old.alloc, nil, true))
+					continue
+				}
+			}
 			st.havocComp(c)
 		}
 		hv := make([]Value, len(phis))
@@ -320,6 +332,43 @@ func (r *funcRun) loopWrites(h *ssa.BasicBlock) []string {
 	return out
 }
 
+// loopLocalOnly: components whose every write in the loop is a store through an address rooted
+// at an Alloc of this function (a local variable), and that no callee modifies.
+func (r *funcRun) loopLocalOnly(h *ssa.BasicBlock) map[string]bool {
+	local := map[string]bool{}
+	other := map[string]bool{}
+	var rooted func(a ssa.Value) bool
+	rooted = func(a ssa.Value) bool {
+		switch x := a.(type) {
+		case *ssa.Alloc:
+			return true
+		case *ssa.FieldAddr:
+			return rooted(x.X)
+		}
+		return false
+	}
+	for _, b := range loopBlocks(h) {
+		for _, in := range b.Instrs {
+			if st, ok := in.(*ssa.Store); ok && rooted(st.Addr) {
+				for _, c := range r.addrComps(st.Addr) {
+					local[c] = true
+				}
+				continue
+			}
+			for _, c := range r.writesOf(in) {
+				other[c] = true
+			}
+		}
+	}
+	for c := range other {
+		delete(local, c)
+	}
+	if other[everything] {
+		return map[string]bool{}
+	}
+	return local
+}
+
 const everything = "*"
 
 // staticLocComps: leaf components a store through the address may write.
@@ -383,9 +432,19 @@ func (r *funcRun) writesOf(in ssa.Instruction) []string {
 		mi := r.v.mapInfo(x.Map.Type().Underlying().(*types.Map))
 		return append([]string{mi.dom, "MapCard[" + strings.TrimPrefix(mi.dom, "MapDom[")}, r.v.mapValComps(mi)...)
 	case *ssa.Next:
-		return []string{"IterVisited"}
+		if rg, ok := x.Iter.(*ssa.Range); ok {
+			if mt, ok := rg.X.Type().Underlying().(*types.Map); ok {
+				name, _ := r.iterComp(r.v.mapInfo(mt).ksort)
+				return []string{name}
+			}
+		}
+		return nil
 	case *ssa.Range:
-		return []string{"IterVisited"}
+		if mt, ok := x.X.Type().Underlying().(*types.Map); ok {
+			name, _ := r.iterComp(r.v.mapInfo(mt).ksort)
+			return []string{name}
+		}
+		return nil
 	case *ssa.Call:
 		return r.callWrites(&x.Call)
 	case *ssa.Defer:
@@ -815,7 +874,7 @@ func (r *funcRun) lookup(st *State, x *ssa.Lookup) {
 		st.seedKey(k)
 		mi := r.v.mapInfo(mt)
 		r.locksetComp(st, mi.dom, false, x)
-		has := And(Not(Ident(m, IntLit(0))), r.v.mapHas(st, nil, mi, m, k))
+		has := r.v.mapHas(st, nil, mi, m, k)
 		raw := r.v.mapValRead(st, nil, mi, m, k)
 		val := r.iteValue(has, raw, r.v.zeroValue(mt.Elem()))
 		if tv, isT := val.(Term); isT {
@@ -935,6 +994,9 @@ func (r *funcRun) rangeOp(st *State, x *ssa.Range) {
 		st.regs[x.Name()] = it
 		st.names["$iter"] = it
 		st.ntypes["$iter"] = tInt
+		// one "current iterator" per key sort, so that nested loops over maps with different key types can both be named
+		st.names["$iter:"+string(mi.ksort)] = it
+		st.ntypes["$iter:"+string(mi.ksort)] = tInt
 		return
 	}
 	// string iteration: abstract iterator
